@@ -1,12 +1,72 @@
 #!/usr/bin/env python3
-"""translate.py <repo> <out.v> - regenerate coq/Gen/Tables.v from the *source text* of /repo (never imports it).
+"""translate.py <repo> <out.v> - regenerate coq/Gen/Tables.v from /repo.
 
-Fail-closed: every construct outside the small grammar below aborts with 'translator: unrecognised ...',
-which a check treats as a broken proof obligation.  Output is written only if it changed (keeps make incremental).
+Code (the rule descriptors of TAG_ITEM_ATTRIBUTES_SPECIAL_VALUES) is translated from the *source text* by a fail-closed
+AST grammar: every construct outside it aborts with 'translator: unrecognised ...', which a check treats as a broken proof
+obligation.  Data tables (string sets, dispatch dicts, the two cache bounds) are read from the source text when they are
+written in the recognised literal forms and cross-checked against the values the module's own top-level code computes
+(constants.py evaluated in a sub-process); when a table is written in a form the grammar does not know (a comprehension,
+setdefault, a reordered literal ...) the evaluated value is used, so that a rewrite of a table that leaves its value
+unchanged regenerates the identical Tables.v.  Output is written only if it changed (keeps make incremental).
 """
 import ast
+import json
+import os
+import subprocess
 import sys
 from pathlib import Path
+
+EVAL_CODE = r"""
+import json, sys
+import AdvancedHTMLParser.constants as c
+import AdvancedHTMLParser.xpath._cache as k
+def S(x, what):
+    if not isinstance(x, (set, frozenset, tuple, list)) or not all(isinstance(e, str) for e in x):
+        raise SystemExit('eval: %s is not a collection of str' % what)
+    return sorted(set(x))
+def T(x, what):
+    if not isinstance(x, str):
+        raise SystemExit('eval: %s is not a str' % what)
+    return x
+def I(x, what):
+    if not isinstance(x, int) or isinstance(x, bool):
+        raise SystemExit('eval: %s is not an int' % what)
+    return x
+def D(x, what):
+    if not isinstance(x, dict) or not all(isinstance(e, str) for e in x):
+        raise SystemExit('eval: %s is not a dict with str keys' % what)
+    return x
+out = dict(
+  MAX_CACHED_EXPRESSIONS=I(k.MAX_CACHED_EXPRESSIONS, 'MAX_CACHED_EXPRESSIONS'), CLEAR_AT_ONE_TIME=I(k.CLEAR_AT_ONE_TIME, 'CLEAR_AT_ONE_TIME'),
+  IMPLICIT_SELF_CLOSING_TAGS=S(c.IMPLICIT_SELF_CLOSING_TAGS, 'IMPLICIT_SELF_CLOSING_TAGS'), PREFORMATTED_TAGS=S(c.PREFORMATTED_TAGS, 'PREFORMATTED_TAGS'),
+  PRESERVE_CONTENTS_TAGS=S(c.PRESERVE_CONTENTS_TAGS, 'PRESERVE_CONTENTS_TAGS'), TAG_ITEM_BINARY_ATTRIBUTES=S(c.TAG_ITEM_BINARY_ATTRIBUTES, 'TAG_ITEM_BINARY_ATTRIBUTES'),
+  TAG_ITEM_BINARY_ATTRIBUTES_STRING_ATTR=S(c.TAG_ITEM_BINARY_ATTRIBUTES_STRING_ATTR, 'TAG_ITEM_BINARY_ATTRIBUTES_STRING_ATTR'),
+  INVISIBLE_ROOT_TAG=T(c.INVISIBLE_ROOT_TAG, 'INVISIBLE_ROOT_TAG'), INVISIBLE_ROOT_TAG_START=T(c.INVISIBLE_ROOT_TAG_START, 'INVISIBLE_ROOT_TAG_START'),
+  INVISIBLE_ROOT_TAG_END=T(c.INVISIBLE_ROOT_TAG_END, 'INVISIBLE_ROOT_TAG_END'),
+  TAG_NAMES_TO_ADDITIONAL_ATTRIBUTES={t: S(v, 'TAG_NAMES_TO_ADDITIONAL_ATTRIBUTES[%r]' % t) for t, v in D(c.TAG_NAMES_TO_ADDITIONAL_ATTRIBUTES, 'TAG_NAMES_TO_ADDITIONAL_ATTRIBUTES').items()},
+  ALL_JAVASCRIPT_EVENT_ATTRIBUTES=S(c.ALL_JAVASCRIPT_EVENT_ATTRIBUTES, 'ALL_JAVASCRIPT_EVENT_ATTRIBUTES'),
+  TAG_ITEM_ATTRIBUTE_LINKS=S(c.TAG_ITEM_ATTRIBUTE_LINKS, 'TAG_ITEM_ATTRIBUTE_LINKS'),
+  TAG_ITEM_CHANGE_NAME_FROM_ITEM={a: T(b, 'TAG_ITEM_CHANGE_NAME_FROM_ITEM[%r]' % a) for a, b in D(c.TAG_ITEM_CHANGE_NAME_FROM_ITEM, 'TAG_ITEM_CHANGE_NAME_FROM_ITEM').items()},
+  SPECIAL_VALUES_KEYS=sorted(D(c.TAG_ITEM_ATTRIBUTES_SPECIAL_VALUES, 'TAG_ITEM_ATTRIBUTES_SPECIAL_VALUES')),
+  SPECIAL_VALIDATION_KEYS=sorted(D(c.TAG_ITEM_ATTRIBUTES_SPECIAL_VALIDATION, 'TAG_ITEM_ATTRIBUTES_SPECIAL_VALIDATION')))
+sys.stdout.write('@@EVAL ' + json.dumps(out, sort_keys=True) + '\n')
+"""
+
+
+def evaluated(repo):
+    """the values of the data tables as constants.py's own top-level code computes them; None when that fails"""
+    env = dict(os.environ, PYTHONPATH=str(repo), PYTHONHASHSEED='0', PYTHONDONTWRITEBYTECODE='1')
+    try:
+        r = subprocess.run([sys.executable, '-c', EVAL_CODE], env=env, stdin=subprocess.DEVNULL, capture_output=True, text=True, timeout=60, cwd='/')
+    except (OSError, subprocess.SubprocessError):
+        return None
+    for line in r.stdout.splitlines():
+        if line.startswith('@@EVAL '):
+            try:
+                return json.loads(line[7:])
+            except ValueError:
+                return None
+    return None
 
 
 class Unrecognised(Exception):
@@ -78,10 +138,24 @@ def translate(repo):
     out = ['(* GENERATED by tools/translate.py from the source text of %s - do not edit. *)' % pkg,
            'From Coq Require Import String List ZArith.', 'From AHP Require Import Model.PropRules.', 'Import ListNotations.', 'Local Open Scope string_scope.', '']
 
+    ev = evaluated(repo)
+
+    def pick(what, syntactic, key, conv=lambda x: x):
+        """the syntactic reading when the form is recognised (cross-checked against the evaluated value), else the evaluated value"""
+        try:
+            v = syntactic()
+        except Unrecognised as e:
+            if ev is None:
+                die('%s (and evaluating the module failed)' % e)
+            return conv(ev[key])
+        if ev is not None and conv(ev[key]) != v:
+            die('%s: the source text reads %r but the module evaluates to %r' % (what, v, conv(ev[key])))
+        return v
+
     # ---- xpath/_cache.py: the two bounds
     _, ca = module_assigns(pkg / 'xpath' / '_cache.py')
-    mx = int_const(single(ca, 'MAX_CACHED_EXPRESSIONS', '_cache.py'), 'MAX_CACHED_EXPRESSIONS')
-    cl = int_const(single(ca, 'CLEAR_AT_ONE_TIME', '_cache.py'), 'CLEAR_AT_ONE_TIME')
+    mx = pick('MAX_CACHED_EXPRESSIONS', lambda: int_const(single(ca, 'MAX_CACHED_EXPRESSIONS', '_cache.py'), 'MAX_CACHED_EXPRESSIONS'), 'MAX_CACHED_EXPRESSIONS')
+    cl = pick('CLEAR_AT_ONE_TIME', lambda: int_const(single(ca, 'CLEAR_AT_ONE_TIME', '_cache.py'), 'CLEAR_AT_ONE_TIME'), 'CLEAR_AT_ONE_TIME')
     out.append('Definition max_cached : Z := %d%%Z.' % mx)
     out.append('Definition clear_at_once : Z := %d%%Z.' % cl)
     out.append('Definition cache_params_ok : bool := (0 <=? clear_at_once)%Z && (clear_at_once <? max_cached)%Z.')
@@ -94,24 +168,31 @@ def translate(repo):
                             ('PRESERVE_CONTENTS_TAGS', 'preserve_contents_tags'),
                             ('TAG_ITEM_BINARY_ATTRIBUTES', 'binary_attributes'),
                             ('TAG_ITEM_BINARY_ATTRIBUTES_STRING_ATTR', 'binary_string_attributes')):
-        vals = sorted(set(str_elts(single(co, pyname, 'constants.py'), pyname)))
+        vals = pick(pyname, lambda pyname=pyname: sorted(set(str_elts(single(co, pyname, 'constants.py'), pyname))), pyname)
         out.append('Definition %s : list string := %s.' % (coqname, clist(map(cstr, vals))))
-    inv = single(co, 'INVISIBLE_ROOT_TAG', 'constants.py')
-    if not (isinstance(inv, ast.Constant) and isinstance(inv.value, str)):
-        die('INVISIBLE_ROOT_TAG is not a string literal')
-    out.append('Definition invisible_root_tag : string := %s.' % cstr(inv.value))
+
+    def inv_syn():
+        inv = single(co, 'INVISIBLE_ROOT_TAG', 'constants.py')
+        if not (isinstance(inv, ast.Constant) and isinstance(inv.value, str)):
+            die('INVISIBLE_ROOT_TAG is not a string literal')
+        return inv.value
+    invv = pick('INVISIBLE_ROOT_TAG', inv_syn, 'INVISIBLE_ROOT_TAG')
+    out.append('Definition invisible_root_tag : string := %s.' % cstr(invv))
     for nm, fmt in (('INVISIBLE_ROOT_TAG_START', '<%s>'), ('INVISIBLE_ROOT_TAG_END', '</%s>')):
-        node = single(co, nm, 'constants.py')
-        ok = (isinstance(node, ast.BinOp) and isinstance(node.op, ast.Mod) and isinstance(node.left, ast.Constant)
-              and node.left.value == fmt and isinstance(node.right, ast.Tuple) and len(node.right.elts) == 1
-              and isinstance(node.right.elts[0], ast.Name) and node.right.elts[0].id == 'INVISIBLE_ROOT_TAG')
-        if not ok:
+        def fmt_syn(nm=nm, fmt=fmt):
+            node = single(co, nm, 'constants.py')
+            ok = (isinstance(node, ast.BinOp) and isinstance(node.op, ast.Mod) and isinstance(node.left, ast.Constant)
+                  and node.left.value == fmt and isinstance(node.right, ast.Tuple) and len(node.right.elts) == 1
+                  and isinstance(node.right.elts[0], ast.Name) and node.right.elts[0].id == 'INVISIBLE_ROOT_TAG')
+            if not ok:
+                die('%s is not %r %% (INVISIBLE_ROOT_TAG,)' % (nm, fmt))
+            return fmt % (invv,)
+        if pick(nm, fmt_syn, nm) != fmt % (invv,):
             die('%s is not %r %% (INVISIBLE_ROOT_TAG,)' % (nm, fmt))
 
     # ---- constants.py: dot-access dispatch tables
     ctree = ast.parse((pkg / 'constants.py').read_text())
-    extra = translate_dispatch(ctree, co)
-    out += extra
+    out += translate_dispatch(ctree, co, ev)
     out += translate_rules(ctree, co)
     out.append('')
     return '\n'.join(out) + '\n'
@@ -139,7 +220,7 @@ def dict_of_str(node, what):
     return d
 
 
-def translate_dispatch(tree, co):
+def dispatch_values(tree, co):
     """TAG_NAMES_TO_ADDITIONAL_ATTRIBUTES (+ the two post-processing statements), COMMON_JAVASCRIPT_ATTRIBUTES,
     ALL_JAVASCRIPT_EVENT_ATTRIBUTES, TAG_ITEM_ATTRIBUTE_LINKS (+ update), TAG_ITEM_CHANGE_NAME_FROM_ITEM,
     key sets of the SPECIAL_VALUES / SPECIAL_VALIDATION tables."""
@@ -193,16 +274,35 @@ def translate_dispatch(tree, co):
     for nm, node in (('SPECIAL_VALUES', sv), ('SPECIAL_VALIDATION', sval)):
         if not (isinstance(node, ast.Dict) and all(isinstance(k, ast.Constant) and isinstance(k.value, str) for k in node.keys)):
             die('TAG_ITEM_ATTRIBUTES_%s is not a dict literal with string keys' % nm)
+    return dict(add={t: sorted(v) for t, v in add.items()}, links=sorted(links), change=change, all_js=sorted(all_js),
+                svk=sorted(k.value for k in sv.keys), svalk=sorted(k.value for k in sval.keys))
+
+
+
+def translate_dispatch(tree, co, ev):
+    evd = None if ev is None else dict(add=ev['TAG_NAMES_TO_ADDITIONAL_ATTRIBUTES'], links=ev['TAG_ITEM_ATTRIBUTE_LINKS'],
+                                       change=ev['TAG_ITEM_CHANGE_NAME_FROM_ITEM'], all_js=ev['ALL_JAVASCRIPT_EVENT_ATTRIBUTES'],
+                                       svk=ev['SPECIAL_VALUES_KEYS'], svalk=ev['SPECIAL_VALIDATION_KEYS'])
+    try:
+        d = dispatch_values(tree, co)
+    except Unrecognised as e:
+        if evd is None:
+            die('%s (and evaluating the module failed)' % e)
+        d = evd
+    else:
+        if evd is not None and d != evd:
+            diff = [k for k in d if d[k] != evd[k]]
+            die('dispatch tables %s: the source text and the evaluated module disagree' % diff)
+    add, links, change, all_js = d['add'], d['links'], d['change'], d['all_js']
     out = []
     out.append('Definition attribute_links : list string := %s.' % clist(map(cstr, sorted(links))))
     out.append('Definition tag_additional : list (string * list string) := [\n  %s].' % ';\n  '.join(
         '(%s, %s)' % (cstr(t), clist(map(cstr, sorted(vs)))) for t, vs in sorted(add.items())))
     out.append('Definition change_name : list (string * string) := %s.' % clist('(%s, %s)' % (cstr(k), cstr(v)) for k, v in sorted(change.items())))
     out.append('Definition all_js_events : list string := %s.' % clist(map(cstr, sorted(all_js))))
-    out.append('Definition special_value_names : list string := %s.' % clist(map(cstr, sorted(k.value for k in sv.keys))))
-    out.append('Definition special_validation_names : list string := %s.' % clist(map(cstr, sorted(k.value for k in sval.keys))))
+    out.append('Definition special_value_names : list string := %s.' % clist(map(cstr, d['svk'])))
+    out.append('Definition special_validation_names : list string := %s.' % clist(map(cstr, d['svalk'])))
     return out
-
 
 
 # ------------------------------------------------------------------------------------------------ special value rules
